@@ -1032,6 +1032,29 @@ func (it *Interp) mux(c *Node, a, b Value) Value {
 		if y, ok := b.(StrV); ok && x.Known && y.Known && x.S == y.S {
 			return x
 		}
+		if y, ok := b.(StrV); ok && x.Sym && y.Sym && len(x.Chars) == len(y.Chars) {
+			// character-wise mux of two symbolic strings of the same length
+			out := StrV{Sym: true}
+			for i := range x.Chars {
+				cx, cy := x.Chars[i], y.Chars[i]
+				if (cx.Hex == nil) != (cy.Hex == nil) {
+					return OpaqueV{"mux of unlike characters"}
+				}
+				m, okm := it.mux(c, BV{W: cx.W, B: cx.B}, BV{W: cy.W, B: cy.B}).(BV)
+				if !okm {
+					return OpaqueV{"mux of unlike characters"}
+				}
+				if cx.Hex != nil {
+					h, okh := it.mux(c, BV{W: 4, B: cx.Hex}, BV{W: 4, B: cy.Hex}).(BV)
+					if !okh {
+						return OpaqueV{"mux of unlike characters"}
+					}
+					m.Hex = h.B
+				}
+				out.Chars = append(out.Chars, m)
+			}
+			return out
+		}
 	}
 	return OpaqueV{"mux of distinct non-scalar values"}
 }
@@ -1688,6 +1711,11 @@ func (it *Interp) binop(x *ssa.BinOp, a, b Value) Value {
 				}
 			} else if bvEqual(a, b) {
 				eq = 1
+			} else if pa, ok := a.(Ptr); ok {
+				// two pointers: equal iff they designate the same cell (distinct objects have distinct addresses)
+				if pb, ok := b.(Ptr); ok && pa.Sym == nil && pb.Sym == nil {
+					eq = b2i(pa == pb)
+				}
 			}
 			if sa, ok := a.(StrV); ok {
 				if sb, ok := b.(StrV); ok && sa.Known && sb.Known {
@@ -1803,8 +1831,40 @@ func (it *Interp) binop(x *ssa.BinOp, a, b Value) Value {
 			}
 			return res(it.constBV(uint64(r), w))
 		}
+		nonNeg := func(v BV) bool { return !v.Signed || v.B[v.W-1].op == opZero }
+		// multiplication by a constant: shift and add
+		if x.Op == token.MUL && (aConst || bConst) && !av.HasTop() && !bv.HasTop() {
+			v, c := av, cb
+			if aConst {
+				v, c = bv, ca
+			}
+			acc := it.constBV(0, v.W)
+			for i := 0; i < v.W && i < 64; i++ {
+				if c>>uint(i)&1 == 1 {
+					sh := BV{W: v.W, B: make([]*Node, v.W)}
+					for k := range sh.B {
+						if k-i >= 0 {
+							sh.B[k] = v.B[k-i]
+						} else {
+							sh.B[k] = it.T.zero
+						}
+					}
+					acc = it.add(acc, sh, it.T.zero)
+				}
+			}
+			return res(acc)
+		}
+		// division / remainder of a non-negative value by a positive constant: restoring division
+		if (x.Op == token.QUO || x.Op == token.REM) && bConst && cb != 0 && cb&(cb-1) != 0 && nonNeg(av) && !av.HasTop() &&
+			(!bv.Signed || toSigned(cb, bv) > 0) {
+			q, rm := it.udivConst(av, cb)
+			if x.Op == token.QUO {
+				return res(q)
+			}
+			return res(rm)
+		}
 		// multiplication / division by a power of two
-		if bConst && cb != 0 && cb&(cb-1) == 0 && !av.Signed {
+		if bConst && cb != 0 && cb&(cb-1) == 0 && (nonNeg(av) || x.Op == token.MUL) {
 			sh := 0
 			for (uint64(1) << uint(sh)) != cb {
 				sh++
@@ -1912,6 +1972,43 @@ func (it *Interp) binop(x *ssa.BinOp, a, b Value) Value {
 		return it.topBV(w)
 	}
 	return OpaqueV{"binop"}
+}
+
+// udivConst: quotient and remainder of the unsigned value a by the constant c > 0.
+func (it *Interp) udivConst(a BV, c uint64) (BV, BV) {
+	n := 0
+	for i := 0; i < a.W; i++ {
+		if a.B[i].op != opZero {
+			n = i + 1
+		}
+	}
+	kb := 0
+	for c>>uint(kb) != 0 {
+		kb++
+	}
+	w := kb + 1
+	C := it.constBV(c, w)
+	rem := it.constBV(0, w)
+	q := it.constBV(0, a.W)
+	for i := n - 1; i >= 0; i-- {
+		sh := BV{W: w, B: make([]*Node, w)}
+		sh.B[0] = a.B[i]
+		for k := 1; k < w; k++ {
+			sh.B[k] = rem.B[k-1]
+		}
+		ge := it.T.Not(it.ult(sh, C))
+		d := it.sub(sh, C)
+		rem = BV{W: w, B: make([]*Node, w)}
+		for k := 0; k < w; k++ {
+			rem.B[k] = it.T.Mux(ge, d.B[k], sh.B[k])
+		}
+		q.B[i] = ge
+	}
+	r := it.constBV(0, a.W)
+	for k := 0; k < w && k < a.W; k++ {
+		r.B[k] = rem.B[k]
+	}
+	return q, r
 }
 
 // ult: a < b, unsigned.
